@@ -1356,7 +1356,7 @@ class Normalizer:
         if a.vararg or a.kwarg or a.posonlyargs:
             return False
         decos = [d.id if isinstance(d, ast.Name) else getattr(d, "attr", "?") for d in fdef.decorator_list]
-        if any(d not in ("staticmethod",) for d in decos):
+        if any(d not in ("staticmethod", "classmethod") for d in decos):
             return False
         for n in ast.walk(fdef):
             if isinstance(n, (ast.Yield, ast.YieldFrom, ast.Await, ast.Global)):
@@ -1398,7 +1398,10 @@ class Normalizer:
                 if self._overridden(modname, cname, f.attr):
                     return None
                 static = any((isinstance(d, ast.Name) and d.id == "staticmethod") for d in fd.decorator_list)
+                clsm = any((isinstance(d, ast.Name) and d.id == "classmethod") for d in fd.decorator_list)
                 if recv == cname and not static:
+                    return None
+                if clsm and recv != "self":
                     return None
                 return q, fd, (not static)
         return None
@@ -1784,7 +1787,11 @@ class Normalizer:
                 return None
             selfname = params[0]
             params = params[1:]
-            if selfname != "self":
+            if selfname == "cls" and any(isinstance(d, ast.Name) and d.id == "classmethod" for d in fdef.decorator_list):
+                # a class method called on the instance: what it reads through `cls` (class constants, other class / static methods) the instance
+                # reaches through `self` as well
+                helper = _Rename({"cls": "self"}).visit(helper)
+            elif selfname != "self":
                 return None
         # argument binding
         binding = {}
